@@ -286,11 +286,17 @@ def program(T, scheme, specs, given, configs, containers, constraint_clause, joi
         if family is None and k is None and h is None and not join:
             default_pf = pf
         cur = 0
-        for nn in ns:
+        # after the documented iterations: clear() must bring the generated penalty back to what it was when new
+        steps = list(ns) + (['clear'] if max(ns) > 0 else [])
+        for nn in steps:
+            cleared = (nn == 'clear')
+            if cleared:
+                pf.clear()
+                cur = nn = 0
             while cur < nn:
                 pf.iter()
                 cur += 1
-            for x, tag in pts:
+            for x, tag in (pts[::6] if cleared else pts):
                 T.count('traces')
                 T.count('transitions', len(conds))
                 try:
@@ -326,8 +332,8 @@ def program(T, scheme, specs, given, configs, containers, constraint_clause, joi
                     msg = 'penalty %r, documented sum is %s' % (got, ref)
                     clause = 'penalty_value'
                 if msg:
-                    T.violate(dict(sigbase, clause=clause, cmp=cmps, n=nn, **cfg), dict(base, x=x, config=cfg, n=nn),
-                              '%r with %r after %d iter(): at %r %s' % (text, cfg, nn, x, msg))
+                    T.violate(dict(sigbase, clause=clause, cmp=cmps, n=nn, after_clear=cleared, **cfg), dict(base, x=x, config=cfg, n=nn),
+                              '%r with %r after %s: at %r %s' % (text, cfg, ('%d iter() and clear()' % max(ns)) if cleared else '%d iter()' % nn, x, msg))
                 if not ok:
                     T.nontriv((text, name, nvars, tuple(x)))
     T.count('states', len(pts))
